@@ -2,6 +2,7 @@ package sym
 
 import (
 	"fmt"
+	"time"
 	"go/constant"
 	"go/token"
 	"go/types"
@@ -217,8 +218,9 @@ func (e *Engine) exploreFrame(init *State) []*State {
 				}
 			}
 			e.Stats.Steps++
-			if e.Stats.Steps > e.MaxSteps {
-				e.addEvent(Event{Kind: "budget", Label: "step budget exhausted"})
+			if e.Stats.Steps > e.MaxSteps || (e.Stats.Steps%256 == 0 && !e.Deadline.IsZero() && time.Now().After(e.Deadline)) {
+				e.addEvent(Event{Kind: "budget", Label: "step or time budget of the job exhausted"})
+				e.MaxSteps = 0
 				return nil
 			}
 			f := s.top()
